@@ -18,7 +18,7 @@ import struct
 import subprocess
 import sys
 
-from common import Check, HARNESS, GOENV, MODELRUN, coq_list
+from common import Check, HARNESS, GOENV, coq_list
 
 # ------------------------------------------------------------------ the universe
 INT_RANGE = {"int": (-(1 << 63), (1 << 63) - 1), "int8": (-128, 127), "int16": (-(1 << 15), (1 << 15) - 1),
@@ -1200,7 +1200,7 @@ def run_indices(binary, args, n, timeout=600):
         crashes[dead] = "rc=%s %s" % (rc, err[:600])
         todo = todo[len(out) + 1:]
         restarts += 1
-        if restarts > 8:
+        if restarts > 40:
             for i in todo:
                 lines[i] = "NOTRUN"
             break
@@ -1229,7 +1229,9 @@ def classify(cs, mline, iline, shared=False):
     (None when they agree).  shared: iline comes from the concurrent pass."""
     if iline == mline:
         return None
-    if iline is None or iline in ("CRASH", "NOTRUN", "nocase"):
+    if iline in ("NOTRUN", "nocase"):
+        return "C20:harness:notrun"
+    if iline is None or iline == "CRASH":
         return "C20:shared:crash" if shared else "C20:seq:crash"
     if mline is None or mline == "badcase":
         return "C20:driver:badcase"
@@ -1341,10 +1343,8 @@ def apply_keys(cs, keys):
         if k[0] != "copy":
             k[2] = dv
     out = dict(src=st, dst=dt, opts=opts, calls=tuple(tuple(k) for k in calls), fam=cs.get("fam", "?"))
-    for t in case_types(out):       # consistency of the defined types (raises AssertionError otherwise)
-        collect_defined(t, {})
     defs = {}
-    for t in case_types(out):
+    for t in case_types(out):       # consistency of the defined types (raises AssertionError otherwise)
         collect_defined(t, defs)
     return out
 
@@ -1466,10 +1466,14 @@ def process_batch(c, cases, res, stats, budget):
             small = minimise(c, cs, sig, shared, stats)
         if small is not cs:
             try:
-                r2 = run_batch(c, [small], tag="rep", conc=shared)
-                m2, l2 = r2["model"][0], (r2["conc"] if shared else r2["impl"])[0]
-                if classify(small, m2, l2, shared) == sig:
-                    m, line = m2, l2
+                for attempt in range(4 if sig.endswith(":crash") or sig.endswith(":diverge") else 1):
+                    r2 = run_batch(c, [small], tag="rep", conc=shared)
+                    m2, l2 = r2["model"][0], (r2["conc"] if shared else r2["impl"])[0]
+                    if classify(small, m2, l2, shared) == sig:
+                        m, line = m2, l2
+                        if shared and 0 in r2["crashes"]:
+                            res["crashes"][i] = r2["crashes"][0]
+                        break
                 else:
                     small = cs
             except BuildFailed:
